@@ -109,6 +109,14 @@ func (e *Engine) GenerateWith(completer Completer) {
 // of completions already in memory. This might produce a bigger/smaller/
 // different completion grid, for example if it's called on terminal resize.
 func (e *Engine) GenerateCached() {
+	if e.cached == nil {
+		// The completer has been dropped (a key was typed under a list that is
+		// still displayed): the grid cannot be computed again, and the one made
+		// for the previous terminal width cannot be printed as is.
+		e.ClearMenu(true)
+		return
+	}
+
 	e.GenerateWith(e.cached)
 }
 
